@@ -29,6 +29,7 @@ type FuncResult struct {
 	Fn          *ssa.Function
 	ParamConsts []string
 	Witness     map[string]string
+	GlobalIds   map[*ssa.Global]int
 }
 
 func (eng *Engine) VerifyFunc(c *Contract) (res *FuncResult) {
@@ -83,6 +84,7 @@ func (eng *Engine) VerifyFunc(c *Contract) (res *FuncResult) {
 	for n, t := range vc.ghost {
 		res.Witness[n] = t.S
 	}
+	res.GlobalIds = vc.globalIds
 	return
 }
 
